@@ -56,7 +56,22 @@ def gen_cases(ctx, n):
         cases.append(G.gen_case(ctx.rng, family="linear", want_range=False, units=u))
         cases.append(G.gen_case(ctx.rng, family=fams[k % len(fams)], want_range=False,
                                 noise_free=False, units=u))
+    # some ordinates exactly known (sigma_y = 0 there, sigma_x > 0 everywhere): chi-squared is over
+    # the points with sigma_y > 0 only
+    for k, fam in enumerate(("exponential", "gaussian", "custom:sine", "custom:growth")):
+        cases.append(G.gen_case(ctx.rng, family=fam, want_range=False, noise_free=False, sy="yzeros",
+                                units=None if k % 2 else (ext[k][0], ext[k + 1][1])))
+    # (almost) uncorrelated parameters: small correlations are registered like any other
+    for k in range(4):
+        cases.append(G.gen_centred(ctx.rng, units=None if k < 2 else ext[k]))
     while len(cases) < n:
+        if ctx.rng.random() < 0.03:
+            cases.append(G.gen_centred(ctx.rng))
+            continue
+        if ctx.rng.random() < 0.06:
+            cases.append(G.gen_case(ctx.rng, family=ctx.rng.choice(fams[3:] + ("custom:growth",)),
+                                    want_range=False, noise_free=False, sy="yzeros"))
+            continue
         u = None
         if ctx.rng.random() < 0.6:
             u = (ctx.rng.choice(G.SCALES), ctx.rng.choice(G.SCALES))
